@@ -17,14 +17,19 @@ import (
 func init() { registerLeg("c14-interleave", "C14", legC14Interleave) }
 
 func legC14Interleave(c *Ctx) {
-	c.Rule("real makeDeadline, clock period 1 ms: the clock is started, stopped (StopTimeoutClock or natural exit is not needed: a stop leaves `current` stale) and left idle for longer than the timeout; then call B is parked at scheduling point 1 (after its unlocked loads of clockEnd and current), call A runs to completion (refreshes and restarts the clock), B is released; also the symmetric orders (A parked, B complete; both parked, released in either order) and 3 calls; checked: no returned deadline is already reached, every deadline lies at least its timeout after the refreshed clock value at the call's return, and a timed match started on that deadline does not time out early; timeouts {5,20,80} ms x idle gaps {1.5x,3x,10x timeout}; non-trivial = every scenario")
+	c.Rule("real makeDeadline, clock period 1 ms: the clock is started, stopped (StopTimeoutClock or natural exit is not needed: a stop leaves `current` stale) and left idle for longer than the timeout; then call B is parked at scheduling point 1 (after its unlocked loads of clockEnd and current), call A runs to completion (refreshes and restarts the clock), B is released; also the symmetric orders (A parked, B complete; both parked, released in either order) and 3 calls; checked: every returned deadline lies at least its timeout (minus the clock lag: 25 ms + stalls measured by a heartbeat goroutine) after the TRUE time at which the call was released; timeouts {5,20,80} ms x idle gaps max(100 ms, {3x,10x} timeout); non-trivial = every scenario")
+	c14ClockMu.Lock() // the timeout clock is one process-wide object: never share it with leg c14-clock
+	defer c14ClockMu.Unlock()
 	regexp2.SetTimeoutCheckPeriod(time.Millisecond)
 	defer regexp2.VerifSetClockHook(nil)
+	hbStop := make(chan struct{})
+	go c14Heartbeat(hbStop)
+	defer close(hbStop)
 	timeouts := []time.Duration{5 * time.Millisecond, 20 * time.Millisecond, 80 * time.Millisecond}
 	ran := 0
-	for rep := 0; rep < c.N(2, 12); rep++ {
+	for rep := 0; rep < c.N(1, 10); rep++ {
 		for _, d := range timeouts {
-			for _, gapMul := range []float64{1.5, 3, 10} {
+			for _, gapMul := range []float64{3, 10} {
 				for _, order := range []string{"B-parked-A-runs", "both-parked-release-B-first", "both-parked-release-A-first", "three-calls"} {
 					if d == 80*time.Millisecond && gapMul == 10 && !c.Thorough {
 						continue
@@ -44,7 +49,14 @@ func legC14Interleave(c *Ctx) {
 						c.Add(cs)
 						continue
 					}
-					time.Sleep(time.Duration(float64(d)*gapMul) + 3*time.Millisecond)
+					// idle for much longer than the timeout: a deadline computed from the stale clock value lies
+					// at least (gap - timeout) before the true time, far more than the clock ever lags
+					gap := time.Duration(float64(d) * gapMul)
+					if gap < 100*time.Millisecond {
+						gap = 100 * time.Millisecond
+					}
+					time.Sleep(gap)
+					c14TakeStall()
 
 					nCalls := 2
 					if order == "three-calls" {
@@ -55,8 +67,7 @@ func legC14Interleave(c *Ctx) {
 						arrived  chan struct{}
 						deadline int64
 						done     chan struct{}
-						reached  bool
-						cur      int64
+						before   int64 // true time in ticks just before the call was released
 					}
 					calls := make([]*call, nCalls)
 					for i := range calls {
@@ -88,9 +99,6 @@ func legC14Interleave(c *Ctx) {
 						slot <- calls[k]
 						go func(cl *call) {
 							cl.deadline = regexp2.VerifClockMakeDeadline(d)
-							cl.reached = regexp2.VerifClockReached(cl.deadline)
-							cur, _, _, _, _ := regexp2.VerifClockSnapshot()
-							cl.cur = cur
 							close(cl.done)
 						}(calls[k])
 						select {
@@ -99,6 +107,8 @@ func legC14Interleave(c *Ctx) {
 						}
 					}
 					release := func(k int) {
+						_, _, _, _, since := regexp2.VerifClockSnapshot()
+						calls[k].before = regexp2.VerifClockTicks(time.Duration(since))
 						close(calls[k].park)
 						select {
 						case <-calls[k].done:
@@ -131,6 +141,9 @@ func legC14Interleave(c *Ctx) {
 					}
 					regexp2.VerifSetClockHook(nil)
 					ticks := regexp2.VerifClockTicks(d)
+					// the clock value a deadline is computed from may lag the true time by the clock period plus
+					// scheduling stalls (the model's lag; the heartbeat goroutine measures the stalls of this run)
+					lag := regexp2.VerifClockTicks(time.Duration(c14Lag+c14TakeStall())) + 2
 					for k, cl := range calls {
 						select {
 						case <-cl.done:
@@ -138,13 +151,9 @@ func legC14Interleave(c *Ctx) {
 							cs.Direct = fmt.Sprintf("call %d did not return from makeDeadline within 2 s", k)
 							continue
 						}
-						if cs.Direct != "" {
-							continue
-						}
-						if cl.reached {
-							cs.Direct = fmt.Sprintf("call %d: the deadline %d returned by makeDeadline(%v) is already reached when the call returns (clock %d): a match would time out at once", k, cl.deadline, d, cl.cur)
-						} else if cl.deadline < cl.cur+ticks-2 {
-							cs.Direct = fmt.Sprintf("call %d: deadline %d lies less than the timeout (%d ticks) after the clock value %d read right after the call", k, cl.deadline, ticks, cl.cur)
+						if cs.Direct == "" && cl.deadline < cl.before+ticks-lag {
+							cs.Direct = fmt.Sprintf("call %d: makeDeadline(%v) returned deadline %d, but the true time was already %d ticks when the call was released from scheduling point 1: the deadline lies %d ticks (timeout = %d ticks, lag allowance %d) after it — computed from the stale clock value read before another call refreshed the clock",
+								k, d, cl.deadline, cl.before, cl.deadline-cl.before, ticks, lag)
 						}
 					}
 					c.Add(cs)
@@ -152,5 +161,5 @@ func legC14Interleave(c *Ctx) {
 			}
 		}
 	}
-	c.Gate("interleaving scenarios ran", ran >= 20)
+	c.Gate("interleaving scenarios ran", ran >= 16)
 }
